@@ -131,6 +131,35 @@ def paramOfExpr (e : Expr CFloat) : Param C64 :=
     | Except.ok z => .num ⟨z.1, z.2⟩
     | Except.error _ => .other
 
+/-- Classifier of the known finding `C12/is-zero-tolerance` as it shows through gate parameters: the expression has a
+constant subexpression whose value is within 1e-10 of 0 or of 1 without being exactly 0 / 1 (e.g. `sin(pi)` ≈ 1.2e-16),
+which quil-rs's simplifier flushes to 0 / 1 by design, so `into_simplified()` and evaluation may differ by up to ~1e-10. -/
+partial def exprNearZeroOrOne (e : Expr CFloat) : Bool :=
+  let here :=
+    if !e.vars.isEmpty || !e.addrs.isEmpty then false
+    else
+      match QV.eval (K := CFloat) (fun _ => none) (fun _ => none) e with
+      | Except.ok z =>
+        let n0 := Float.sqrt (z.1 * z.1 + z.2 * z.2)
+        let n1 := Float.sqrt ((z.1 - 1.0) * (z.1 - 1.0) + z.2 * z.2)
+        (0.0 < n0 && n0 < 1e-10) || (0.0 < n1 && n1 < 1e-10)
+      | Except.error _ => false
+  here || (match e with
+    | .call _ a => exprNearZeroOrOne a
+    | .bin l _ r => exprNearZeroOrOne l || exprNearZeroOrOne r
+    | .pre _ a => exprNearZeroOrOne a
+    | _ => false)
+
+/-- does any `(expr E)` anywhere in the case input match `exprNearZeroOrOne`? -/
+partial def inputNearZeroOrOne : Sexp → Bool
+  | .list [.atom "expr", e] => (ExprWire.decodeExpr e).any exprNearZeroOrOne
+  | .list xs => xs.any inputNearZeroOrOne
+  | _ => false
+
+/-- the known-finding tag for such inputs (only looked at by `./check` when the case fails) -/
+def kfTags (pid : String) (inp : Sexp) : List String :=
+  if inputNearZeroOrOne inp then [s!"kf:{pid}/simplifier-zero-tolerance"] else []
+
 def decodeParam : Sexp → Option (Param C64)
   | .list [.atom "expr", e] => (ExprWire.decodeExpr e).map paramOfExpr
   | .list [.atom "num", re, im] =>
